@@ -129,18 +129,20 @@ theorem rb_drvOp {s s' : St} {ob : Obs} {b : Bool} (hs : step s (.drvOp b) = som
               ((t0 { o with phase := .taken } rfl rfl).trans (rb_dropSender _ _)) ?_
             exact rb_endDriver' _ _ _ rfl
           · split at hs
-            · simp only [Option.some.injEq, Prod.mk.injEq] at hs
-              rw [← hs.1]
-              exact (t0 _ (by rfl) (by rfl)).trans (rb_dropSenderOpt _ _)
-            · simp only [Option.some.injEq, Prod.mk.injEq] at hs
-              rw [← hs.1]
-              exact (t0 _ (by rfl) (by rfl)).trans (rb_ack _ _)
-            · simp only [Option.some.injEq, Prod.mk.injEq] at hs
-              rw [← hs.1]
-              exact ((t0 _ (by rfl) (by rfl)).trans (rb_dropSenderOpt _ _)).trans (rb_ack _ _)
-            · simp only [Option.some.injEq, Prod.mk.injEq] at hs
-              rw [← hs.1]
-              exact (t0 _ (by rfl) (by rfl)).trans (rb_ack _ _)
+            · cases hs
+            · split at hs
+              · simp only [Option.some.injEq, Prod.mk.injEq] at hs
+                rw [← hs.1]
+                exact (t0 _ (by rfl) (by rfl)).trans (rb_dropSenderOpt _ _)
+              · simp only [Option.some.injEq, Prod.mk.injEq] at hs
+                rw [← hs.1]
+                exact (t0 _ (by rfl) (by rfl)).trans (rb_ack _ _)
+              · simp only [Option.some.injEq, Prod.mk.injEq] at hs
+                rw [← hs.1]
+                exact ((t0 _ (by rfl) (by rfl)).trans (rb_dropSenderOpt _ _)).trans (rb_ack _ _)
+              · simp only [Option.some.injEq, Prod.mk.injEq] at hs
+                rw [← hs.1]
+                exact (t0 _ (by rfl) (by rfl)).trans (rb_ack _ _)
 
 theorem rb_drvResp {s s' : St} {ob : Obs} (hs : step s .drvResp = some (s', ob)) : RB s.ops s'.ops := by
   simp only [step] at hs
